@@ -4,6 +4,7 @@ CONSTANTS
   MaxT = 1
   Types = {"f", "h"}
   Lows = {TRUE, FALSE}
+  Stales = {0}
   MaxOps = 5
   EmitMode = "all"
 VIEW View
